@@ -144,6 +144,7 @@ namespace
       m[ "refills_inside_rule" ] += f.refill_in_rule;
       m[ "requests_larger_than_3" ] += f.big_require;
       m[ "overflow_errors" ] += f.overflow;
+   m[ "allocation_failures_fired" ] += f.alloc_faults;
    }
 
    // aggregates of the current worker; global so that they can be written out when the process is about to die
